@@ -264,16 +264,16 @@ func init() {
 		msg := a[0].(Ptr)
 		// snapshot: later mutation of the harness message must not reach the bytes
 		cp := e.deepCopy(msg, map[*Obj]*Obj{}, map[*MapObj]*MapObj{}).(Ptr)
-		arr := e.newObj(ArrayV{}, nil)
+		arr := e.newObj(ArrayV{E: []Value{e.tf.Int(0)}}, nil) // opaque non-empty content
 		arr.Aux = &protoBlob{msg: cp}
 		arr.Name = "bytes:feedmessage"
-		return SliceV{Arr: arr, Len: 0, Cap: 0}
+		return SliceV{Arr: arr, Len: 1, Cap: 1}
 	}
 	intrinsics["BadBytes"] = func(e *Exec, fr *Frame, fn *ssa.Function, a []Value) Value {
-		arr := e.newObj(ArrayV{}, nil)
+		arr := e.newObj(ArrayV{E: []Value{e.tf.Int(0)}}, nil) // opaque non-empty content
 		arr.Aux = &protoBlob{bad: true}
 		arr.Name = "bytes:garbage"
-		return SliceV{Arr: arr}
+		return SliceV{Arr: arr, Len: 1, Cap: 1}
 	}
 	stubs["google.golang.org/protobuf/proto.Unmarshal"] = func(e *Exec, fr *Frame, fn *ssa.Function, a []Value) Value {
 		dst := a[1].(IfaceV)
